@@ -5,7 +5,8 @@
    M <fg> <umask-octal>                                 modes of the five files created on a clean slate
    U <fg> <force> <ids> <tg> <umask-octal> key=<fobs> keydir=<chain> seed=<fobs> seeddir=<chain>
      log=<fobs> logdir=<chain> sock=<fobs> sockdir=<chain> lock=<fobs> pid=<fobs> piddir=<chain>
-                                                        the whole start-up
+                                                        the whole start-up (pidw / wrote: the pid was written at
+                                                        start-up / a new seed was written at exit)
    ids = ruid:euid:suid:rgid:egid:sgid
    chain = uid:gid:mode,...  (leaf first, octal modes; "-" = empty);  fstat = type:uid:gid:mode with type in
    r d l f s c b;  fobs = <symlink 0|1>/<fstat|-> : what lstat/stat report at a name = state of the entry *)
@@ -76,11 +77,13 @@ let line l =
      | Some (s, w) -> Printf.printf "U refuse %s:%s\n" (site s) (why w)
      | None ->
        let a = after_start c and sr = seed_of c in
-       Printf.printf "U start sock=%s lock=%s pid=%s log=%s seed=%s used=%d removed=%d\n"
+       Printf.printf "U start sock=%s lock=%s pid=%s log=%s seed=%s used=%d removed=%d pidw=%d wrote=%d\n"
          (show_fobs a.a_sock) (show_fobs a.a_lock) (show_fobs a.a_pid)
          (match a.a_log with None -> "-" | Some x -> show_fobs x)
          (show_fobs (seed_after c))
-         (if sr.sr_used then 1 else 0) (if sr.sr_removed then 1 else 0))
+         (if sr.sr_used then 1 else 0) (if sr.sr_removed then 1 else 0)
+         (match (pid_of c).w_file with Some _ -> 1 | None -> 0)
+         (match (seed_written c).w_file with Some _ -> 1 | None -> 0))
   | _ -> Printf.printf "? %s\n" l
 
 let () =
